@@ -40,8 +40,29 @@ pub struct Case {
 const PATH_ATOMS: &[&str] = &[
     "a", "B", "foo", "Bar", "x1", "Z9", "-", ".", "_", "~", "!", "$", "&", "'", "(", ")", "*", "+", ",", ";", "=", ":", "@", " ", "\"", "<", ">", "%41", "%2F", "%c3", "é", "日本",
 ];
-const KEY_ATOMS: &[&str] = &["a", "b", "B", "k", "Z1", "_0", "x", "id", "Q", "-", ".", "~", "%20", "é", "+", "key", "utm", "y2"];
-const VAL_ATOMS: &[&str] = &["1", "2", "v", "V", "foo", "+", "%20", "%2B", "é", "日本", "'", "(", "*", "!", ":", "@", "/", "?", "%41", " ", "\"", "<", ">", "~", ",", ";", "$", "%2f"];
+const KEY_ATOMS: &[&str] = &["a", "b", "B", "k", "Z1", "_0", "x", "id", "Q", "-", ".", "~", "%20", "é", "+", "key", "utm", "y2", "%2520"];
+
+/// Spellings that are easily confused once a query is decoded and written again (D48): a member of a group is replaced by another one
+/// and the result is kept as a P2 candidate when the *decoded* strings differ.
+const CONFUSABLE: &[&[&str]] = &[&["%2520", "%20", "+", "%2B", "%252B", "%25", " "], &["%2541", "%41", "A", "b"], &["%252f", "%2f", "/", "%2F"]];
+
+fn respellings(v: &str) -> Vec<String> {
+    let mut alts = Vec::new();
+    for group in CONFUSABLE {
+        for member in group.iter() {
+            let mut from = 0;
+            while let Some(i) = v[from..].find(member) {
+                let at = from + i;
+                for other in group.iter().filter(|o| *o != member) {
+                    alts.push(format!("{}{}{}", &v[..at], other, &v[at + member.len()..]));
+                }
+                from = at + member.len();
+            }
+        }
+    }
+    alts
+}
+const VAL_ATOMS: &[&str] = &["1", "2", "v", "V", "foo", "+", "%20", "%2B", "é", "日本", "'", "(", "*", "!", ":", "@", "/", "?", "%41", " ", "\"", "<", ">", "~", ",", ";", "$", "%2f", "%25", "%2520", "%252B", "%2541"];
 
 fn decode(s: &str) -> String {
     url::form_urlencoded::parse(format!("{s}=").as_bytes()).next().map(|(k, _)| k.into_owned()).unwrap_or_default()
@@ -239,6 +260,40 @@ pub fn check(case: &Case) -> Outcome {
             "key" => "P2:key",
             _ => "P2:value",
         });
+    }
+
+    // P2 (respelled): a value or key written with another escape is another parameter whenever the decoded strings differ
+    let fold = |s: &str| if cfg.ignore_path_and_query_case { decode(s).to_lowercase() } else { decode(s) };
+    let mut respelled: Vec<String> = Vec::new();
+    for (i, (k, v)) in case.params.iter().enumerate() {
+        for nk in respellings(k) {
+            let dk = decode(&nk).to_lowercase();
+            if fold(&nk) == fold(k) || dk.is_empty() || decoded_keys.contains(&dk) || cfg.marketing_query_params.iter().any(|m| m.to_lowercase() == dk) {
+                continue;
+            }
+            let mut ps = case.params.clone();
+            ps[i].0 = nk;
+            respelled.push(url_of(&case.path, &ps));
+        }
+        if let Some(v) = v {
+            for nv in respellings(v) {
+                if fold(&nv) == fold(v) {
+                    continue;
+                }
+                let mut ps = case.params.clone();
+                ps[i].1 = Some(nv);
+                respelled.push(url_of(&case.path, &ps));
+            }
+        }
+    }
+    if !respelled.is_empty() {
+        out.evals += 1;
+        let other = &respelled[(case.mutate_at as usize * respelled.len()) >> 16];
+        if matches(&router, other).0 {
+            out.fail(format!("P2: rule from {u:?} matches {other:?} whose decoded query parameters differ (respelled escape)"));
+            return out;
+        }
+        out.class("P2:respelled");
     }
 
     // P5: ASCII case swap matches iff the case flag is set (URLs without marketing parameters)
